@@ -2,7 +2,7 @@
 from cfg import Inconclusive, op_place, show, walk, strip_casts
 from common import (atomic_op, calls_to, callee, closure_creations, closure_consumer, field_chain, fn_of,
                     find_fn, get_fn, head_sources, peel, site, guards_of, field_assigns, field_borrows,
-                    field_reads, is_diverging, ret_aggregates)
+                    field_reads, is_diverging, ret_aggregates, bool_param, is_arg)
 
 PROP = "C19"
 LEVEL = "other"
@@ -240,7 +240,7 @@ def rule_running_formula(ctx):
     saw_true = saw_cmp = False
     for bi, si, e in defs:
         if e[0] == "const" and e[1] == 1:
-            g = [x for x in guards_of(ti, bi) if x[3][0] == "arg" and x[3][2] == "canceled"]
+            g = [x for x in guards_of(ti, bi) if is_arg(x[3], bool_param(ti))]
             if g and all(x[2] in ([None], [1]) for x in g):
                 saw_true = True
                 ctx.ok(site(ti, bi, si), "running = true when this tick cancelled the previous run")
@@ -348,7 +348,7 @@ def rule_status_lattice(ctx):
                     other = peel(ge[2][1])
                     if other[0] == "agg" and other[1].endswith("Status::Rescore"):
                         okg = True
-            app = any(g[3][0] == "arg" and g[3][2] == "append" and g[2] in ([None], [1]) for g in gs)
+            app = any(is_arg(g[3], bool_param(rp)) and g[2] in ([None], [1]) for g in gs)
             if okg and app:
                 ctx.ok(site(rp, bi, si), "Update assigned only under append && old_status != Rescore")
             else:
@@ -395,7 +395,7 @@ def rule_pattern_handover(ctx):
     # reset_status only on the cancelling path, before the lock
     rs = [(bi, t) for bi, t in ti.calls(lambda t: callee(t) == "pattern::MultiPattern::reset_status")]
     for bi, t in rs:
-        g = [x for x in guards_of(ti, bi) if x[3][0] == "arg" and x[3][2] == "canceled"]
+        g = [x for x in guards_of(ti, bi) if is_arg(x[3], bool_param(ti))]
         if g and all(x[2] in ([None], [1]) for x in g):
             ctx.ok(site(ti, bi), "pattern status reset only by the cancelling phase")
         else:
